@@ -23,11 +23,15 @@ import (
 	"github.com/pingcap/kvproto/pkg/pdpb"
 	"github.com/pingcap/log"
 	"github.com/tikv/pd/pkg/mock/mockcluster"
+	"github.com/tikv/pd/pkg/mock/mockid"
+	"github.com/tikv/pd/server/cluster"
 	"github.com/tikv/pd/server/config"
 	"github.com/tikv/pd/server/core"
 	"github.com/tikv/pd/server/core/storelimit"
+	"github.com/tikv/pd/server/kv"
 	"github.com/tikv/pd/server/schedule"
 	"github.com/tikv/pd/server/schedule/operator"
+	"github.com/tikv/pd/server/schedule/opt"
 	"github.com/tikv/pd/server/versioninfo"
 	"go.uber.org/zap"
 
@@ -93,13 +97,39 @@ type caseIn struct {
 	SameIDs        bool    `json:"same_ids"` // peer ids equal store ids (as PD's unit tests build regions)
 	MaxWaiting     int     `json:"max_waiting"`
 	AllocBase      int     `json:"alloc_base,omitempty"` // ids the mock allocator hands out start above this
+	// Raft: the controller is the coordinator's one of a real cluster.RaftCluster (InitCluster over a BasicCluster and a
+	// core.Storage whose kv can be made to fail its writes); heartbeats go through RaftCluster.HandleRegionHeartbeat
+	Raft bool `json:"raft,omitempty"`
 	Events         []event `json:"events"`
 	Gen            string  `json:"gen,omitempty"`
 }
 
+// faultyKV fails every write while the fault is on (PD's meta storage is unreachable)
+type faultyKV struct {
+	kv.Base
+	fail bool
+}
+
+func (f *faultyKV) Save(k, v string) error {
+	if f.fail {
+		return fmt.Errorf("kv: write failed")
+	}
+	return f.Base.Save(k, v)
+}
+func (f *faultyKV) Remove(k string) error {
+	if f.fail {
+		return fmt.Errorf("kv: write failed")
+	}
+	return f.Base.Remove(k)
+}
+
 type world struct {
 	c       *caseIn
-	tc      *mockcluster.Cluster
+	tc      *mockcluster.Cluster // mock mode
+	rc      *cluster.RaftCluster // raft mode
+	bc      *core.BasicCluster
+	fkv     *faultyKV
+	cl      opt.Cluster
 	oc      *schedule.OperatorController
 	rec     *tikvsim.Recorder
 	cancel  context.CancelFunc
@@ -114,7 +144,40 @@ type world struct {
 	nextPID uint64
 }
 
+func newRaftWorld(c *caseIn, rec *tikvsim.Recorder) *world {
+	ctx, cancel := context.WithCancel(context.Background())
+	opts := config.NewTestOptions()
+	if c.JointSupported {
+		opts.SetClusterVersion(versioninfo.MinSupportedVersion(versioninfo.JointConsensus))
+	} else {
+		opts.SetClusterVersion(versioninfo.MinSupportedVersion(versioninfo.Version4_0))
+	}
+	sc := opts.GetScheduleConfig().Clone()
+	sc.EnableJointConsensus = c.JointEnabled
+	sc.SchedulerMaxWaitingOperator = uint64(c.MaxWaiting)
+	opts.SetScheduleConfig(sc)
+	opts.SetPlacementRuleEnabled(false)
+	bc := core.NewBasicCluster()
+	for s := uint64(1); s <= nStores; s++ {
+		bc.PutStore(core.NewStoreInfo(&metapb.Store{Id: s, Address: fmt.Sprintf("mock://%d", s), Version: "5.0.0"}, core.SetLastHeartbeatTS(time.Now())))
+	}
+	fkv := &faultyKV{Base: kv.NewMemoryKV()}
+	rc := cluster.NewRaftCluster(ctx, "", 1, nil, nil, nil)
+	rc.InitCluster(mockid.NewIDAllocator(), opts, core.NewStorage(fkv), bc)
+	for i := 0; i < c.AllocBase; i++ {
+		_, _ = rc.AllocID()
+	}
+	rec.Reset()
+	rec.Collect()
+	return &world{c: c, rc: rc, bc: bc, fkv: fkv, cl: rc, oc: rc.VerifC09Coordinator(rec.HB), rec: rec, cancel: cancel,
+		sims: map[uint64]*tikvsim.Sim{}, history: map[uint64][]*core.RegionInfo{}, opID: map[*operator.Operator]int{},
+		dropped: map[uint64]*pdpb.RegionHeartbeatResponse{}, nextPID: 1000}
+}
+
 func newWorld(c *caseIn, rec *tikvsim.Recorder) *world {
+	if c.Raft {
+		return newRaftWorld(c, rec)
+	}
 	ctx, cancel := context.WithCancel(context.Background())
 	opts := config.NewTestOptions()
 	tc := mockcluster.NewCluster(ctx, opts)
@@ -137,9 +200,25 @@ func newWorld(c *caseIn, rec *tikvsim.Recorder) *world {
 	}
 	rec.Reset()
 	rec.Collect() // nothing of an earlier case may leak into this one
-	return &world{c: c, tc: tc, oc: schedule.NewOperatorController(ctx, tc, rec.HB), rec: rec, cancel: cancel,
+	return &world{c: c, tc: tc, cl: tc, oc: schedule.NewOperatorController(ctx, tc, rec.HB), rec: rec, cancel: cancel,
 		sims: map[uint64]*tikvsim.Sim{}, history: map[uint64][]*core.RegionInfo{}, opID: map[*operator.Operator]int{},
 		dropped: map[uint64]*pdpb.RegionHeartbeatResponse{}, nextPID: 1000}
+}
+
+func (w *world) putRegion(r *core.RegionInfo) {
+	if w.rc != nil {
+		w.bc.PutRegion(r)
+	} else {
+		w.tc.PutRegion(r)
+	}
+}
+
+func (w *world) removeRegion(r *core.RegionInfo) {
+	if w.rc != nil {
+		w.bc.RemoveRegion(r)
+	} else {
+		w.tc.RemoveRegion(r)
+	}
 }
 
 func (w *world) version(rid uint64) int64 { return int64(w.sims[rid].Meta.GetRegionEpoch().GetVersion()) }
@@ -318,6 +397,11 @@ func (w *world) exec(e event) (string, obs) {
 		}
 	}
 	switch e.K {
+	case "kvfault":
+		if w.fkv != nil {
+			w.fkv.fail = e.P == "on"
+		}
+		return "", obs{}
 	case "break":
 		w.rec.Break(e.FStore)
 		return "EBreak " + coqfmt.ZU(e.FStore), obs{Res: -1}
@@ -327,21 +411,21 @@ func (w *world) exec(e event) (string, obs) {
 		got = append(got, w.collect()...)
 		return "ERebind " + coqfmt.ZU(e.FStore), obs{Res: -1, Sent: got}
 	case "influence":
-		w.oc.GetOpInfluence(w.tc)
+		w.oc.GetOpInfluence(w.cl)
 		return "EInfluence", obs{Res: -1}
 	case "vanish":
 		sim := w.sims[e.Rid]
 		if sim == nil {
 			return "", obs{}
 		}
-		w.tc.RemoveRegion(w.tc.GetRegion(e.Rid))
+		w.removeRegion(w.cl.GetRegion(e.Rid))
 		delete(w.sims, e.Rid)
 		return "EVanish " + coqfmt.ZU(e.Rid), obs{Res: -1}
 	case "pollgone":
 		// PushOperators examines the earliest entry of its queue first; with a single running operator whose region PD no
 		// longer knows that entry is this operator's (entries of operators that left the running set are skipped)
 		running := w.oc.GetOperators()
-		if len(running) != 1 || running[0].RegionID() != e.Rid || w.tc.GetRegion(e.Rid) != nil {
+		if len(running) != 1 || running[0].RegionID() != e.Rid || w.cl.GetRegion(e.Rid) != nil {
 			return "", obs{}
 		}
 		w.oc.PushOperators()
@@ -376,7 +460,7 @@ func (w *world) exec(e event) (string, obs) {
 		}
 		r := core.NewRegionInfo(meta, leader)
 		w.sims[e.Rid] = tikvsim.New(r)
-		w.tc.PutRegion(r)
+		w.putRegion(r)
 		w.history[e.Rid] = append(w.history[e.Rid], r)
 		w.rids = append(w.rids, e.Rid)
 		return fmt.Sprintf("ERegion %s %s", coqfmt.ZU(e.Rid), tikvsim.CoqRegion(r, int64(e.Version))), obs{Res: -1, Region: r, RegVer: int64(e.Version)}
@@ -404,7 +488,7 @@ func (w *world) exec(e event) (string, obs) {
 			for _, p := range e.Target {
 				peers[p.Store] = p.meta()
 			}
-			b := operator.NewBuilder(desc, w.tc, region, operator.SkipOriginJointStateCheck).SetPeers(peers)
+			b := operator.NewBuilder(desc, w.cl, region, operator.SkipOriginJointStateCheck).SetPeers(peers)
 			if e.TLeader != 0 {
 				b = b.SetLeader(e.TLeader)
 			}
@@ -442,12 +526,17 @@ func (w *world) exec(e event) (string, obs) {
 	case "hb":
 		sim := w.sims[e.Rid]
 		r := sim.Region()
-		w.tc.PutRegion(r)
 		w.history[e.Rid] = append(w.history[e.Rid], r)
-		w.oc.Dispatch(r, schedule.DispatchFromHeartBeat)
+		if w.rc != nil {
+			// the real heartbeat path: processRegionHeartbeat (cache, storage) and then Dispatch
+			_ = w.rc.HandleRegionHeartbeat(r)
+		} else {
+			w.tc.PutRegion(r)
+			w.oc.Dispatch(r, schedule.DispatchFromHeartBeat)
+		}
 		return "EHeartbeat " + coqfmt.ZU(e.Rid), obs{Res: -1, Sent: w.collect(), Region: r, RegVer: w.version(e.Rid)}
 	case "push":
-		if r := w.tc.GetRegion(e.Rid); r != nil {
+		if r := w.cl.GetRegion(e.Rid); r != nil {
 			w.oc.Dispatch(r, schedule.DispatchFromNotifierQueue)
 		}
 		return "EPush " + coqfmt.ZU(e.Rid), obs{Res: -1, Sent: w.collect()}
@@ -508,7 +597,7 @@ func (w *world) exec(e event) (string, obs) {
 		case "check-success":
 			res = b2i(op.CheckSuccess())
 		case "check":
-			if r := w.tc.GetRegion(op.RegionID()); r != nil {
+			if r := w.cl.GetRegion(op.RegionID()); r != nil {
 				res = b2i(op.Check(r) != nil)
 			}
 		default:
@@ -825,6 +914,12 @@ func runCase(rec *tikvsim.Recorder, c *caseIn, r *rng.R, mode string, maxEvents 
 	started, accepted, ended := false, false, false
 	do := func(e event) {
 		term, o := w.exec(e)
+		if e.K == "kvfault" { // the environment of the implementation, invisible to the model: replayed, not part of the history
+			c.Events = append(c.Events, e)
+			out.stats["kvfault:"+e.P]++
+			out.Trace = append(out.Trace, map[string]interface{}{"event": "(PD's meta storage: write fault " + e.P + ")"})
+			return
+		}
 		if term == "" { // the builder refused to build: not an event of the history
 			out.stats["create:refused"]++
 			return
@@ -1046,6 +1141,60 @@ func runCase(rec *tikvsim.Recorder, c *caseIn, r *rng.R, mode string, maxEvents 
 					}
 				}
 			}
+		} else if mode == "kvfault" {
+			// the real heartbeat path of RaftCluster while PD's meta storage fails its writes: somebody else changes the
+			// region, the heartbeats that report it find the storage broken, a push falls due inside the window
+			rid := w.rids[0]
+			create(rid)
+			if n := len(w.ops); n > 0 && w.ops[n-1] != nil {
+				id := n
+				rounds := func(k int) {
+					for ; k > 0; k-- {
+						for len(w.inbox) > 0 {
+							if r.Pct(15) {
+								do(event{K: "drop", Rid: rid})
+							} else {
+								do(event{K: "deliver", Rid: rid})
+							}
+						}
+						do(event{K: "hb", Rid: rid})
+					}
+				}
+				do(event{K: "add", IDs: []int{id}})
+				rounds(r.Intn(3))
+				do(event{K: "kvfault", P: "on"})
+				if r.Pct(50) {
+					for len(w.inbox) > 0 {
+						do(event{K: "drop", Rid: rid})
+					}
+				}
+				for k := 1 + r.Intn(2); k > 0; k-- {
+					switch r.Pick(60, 25, 15) {
+					case 0:
+						do(genForeignAddLearner(r, w, rid))
+					case 1:
+						do(genForeign(r, w, rid))
+					case 2:
+						var vs []uint64
+						for _, p := range w.sims[rid].Meta.Peers {
+							if p.Role == metapb.PeerRole_Voter && p.StoreId != w.sims[rid].Leader.GetStoreId() {
+								vs = append(vs, p.StoreId)
+							}
+						}
+						if len(vs) > 0 {
+							do(event{K: "foreign", Rid: rid, F: "transfer", FStore: vs[r.Intn(len(vs))]})
+						}
+					}
+				}
+				for k := 1 + r.Intn(2); k > 0; k-- {
+					do(event{K: "hb", Rid: rid})
+					if r.Pct(70) {
+						do(event{K: "push", Rid: rid})
+					}
+				}
+				do(event{K: "kvfault", P: "off"})
+				rounds(1 + r.Intn(2))
+			}
 		} else if mode == "rebind" {
 			// a store's heartbeat stream breaks while commands are pushed for an operator; the region moves on (leader
 			// transferred, configuration changed by somebody else, operator cancelled or removed); the store binds a new
@@ -1238,7 +1387,8 @@ func main() {
 		"the operator's command is lost, somebody else changes the region and then issues that very command), direct calls of the Operator's " +
 		"exported status methods (walks over the status matrix), GetOpInfluence, regions merged away under a running operator and the push loop's " +
 		"region-disappeared branch (real PushOperators), heartbeat streams that break (Send fails) and stores that bind a new stream while the region " +
-		"moves on (everything any stream receives is observed), expiry and timeout by " +
+		"moves on (everything any stream receives is observed), the same through a real cluster.RaftCluster (HandleRegionHeartbeat = processRegionHeartbeat + " +
+		"Dispatch, coordinator's controller) over a storage whose kv fails its writes while foreign changes are reported and pushes fall due, expiry and timeout by " +
 		"back-dated reach times; non-trivial = some operator started, some command was applied and some operator ended; distinct by sha256 of the case text"
 	cf := &coqfmt.CaseFile{Dir: *out, Prefix: "C09", PerFile: 100,
 		Header: "From Coq Require Import String.\nFrom PDV Require Import lib.Base model.C08_Steps model.C09_OpCtl.\nLocal Open Scope string_scope.\nLocal Open Scope list_scope.\nLocal Open Scope Z_scope.\n",
@@ -1331,7 +1481,10 @@ func main() {
 				c.MaxWaiting = 1 + r.Intn(2)
 			}
 			mode := "lifecycle"
-			switch r.Pick(30, 34, 13, 9, 8, 6) {
+			switch r.Pick(27, 32, 13, 9, 7, 6, 6) {
+			case 6:
+				mode = "kvfault"
+				c.Raft = true
 			case 5:
 				mode = "rebind"
 			case 4:
@@ -1346,7 +1499,13 @@ func main() {
 					c.JointSupported, c.JointEnabled = true, true
 				}
 			}
+			if r.Pct(15) {
+				c.Raft = true // the same histories through RaftCluster.HandleRegionHeartbeat and the coordinator's controller
+			}
 			c.Gen = mode
+			if c.Raft {
+				c.Gen = mode + "/raftcluster"
+			}
 			emit(runCase(rec, c, r, mode, 40))
 		}
 		R.Notes = append(R.Notes, fmt.Sprintf("driver generated and executed %d histories in %.1fs", len(all), time.Since(t0).Seconds()))
